@@ -701,7 +701,64 @@ func installFunctions(in *Interp, p *Pkg) {
 				return nil, e
 			}
 		}
-		return nil, in.unsureSort(less, key, a[1])
+		// The order and number of predicate calls is the sorting algorithm's
+		// business, so the model only follows pure builtin predicates.
+		pure := func(f *V) bool { return f == nil || (f.Fn.Builtin != nil && f.Fn.Kind == FnFunction && pureBuiltins[f.Fn.Name]) }
+		if !pure(less) || !pure(key) {
+			return nil, in.unsureSort(less, key, a[1])
+		}
+		elems := a[1].Elems()
+		for _, x := range elems {
+			if !selfEvaluating(x) {
+				return nil, in.unsure("stable-sort re-evaluates elements")
+			}
+		}
+		keys := make([]*V, len(elems))
+		for i, x := range elems {
+			keys[i] = x
+			if key != nil {
+				k, e := in.call(key, x)
+				if e != nil {
+					return nil, in.unsure("stable-sort with a failing key function")
+				}
+				keys[i] = k
+			}
+		}
+		lessFn := func(x, y *V) (bool, *Err) {
+			r, e := in.call(less, x, y)
+			if e != nil {
+				return false, e
+			}
+			return r.Truthy(), nil
+		}
+		// probe every pair once: a predicate that rejects some pair makes the sort fail
+		for i := range keys {
+			for j := range keys {
+				if i != j {
+					if _, e := lessFn(keys[i], keys[j]); e != nil {
+						return nil, in.unsure("stable-sort with a failing predicate")
+					}
+				}
+			}
+		}
+		idx := make([]int, len(elems))
+		for i := range idx {
+			idx[i] = i
+		}
+		sort.SliceStable(idx, func(x, y int) bool { b, _ := lessFn(keys[idx[x]], keys[idx[y]]); return b })
+		out := make([]*V, len(elems))
+		for i, k := range idx {
+			out[i] = elems[k]
+		}
+		if a[1].K == KVec {
+			a[1].Vec.E = out
+			return a[1], nil
+		}
+		if a[1].Src != nil { // a program literal is never modified: a fresh list comes back
+			return QList(out), nil
+		}
+		copy(a[1].L, out) // in place: visible through every reference
+		return a[1], nil
 	})
 
 	// --- maps ------------------------------------------------------------------
@@ -1109,6 +1166,8 @@ func installFunctions(in *Interp, p *Pkg) {
 		return Nil(), nil
 	})
 }
+
+var pureBuiltins = map[string]bool{"<": true, ">": true, "<=": true, ">=": true, "string<": true, "string>": true, "string<=": true, "string>=": true, "-": true, "identity": true, "length": true, "car": true, "first": true, "to-string": true}
 
 // printAtom renders the values whose printed form the reference fixes
 // unambiguously: integers, floats (shortest round-trip, exponent form as Go's
